@@ -38,12 +38,13 @@ SCHEMES_ALL = FAMILY + T_DIFFERENT + OTHERS
 RULE = ("one case = one dataset evaluated under every scheme of the tier's list and both values of use_bucket_id. "
         "quick: every dataset over R(3) with 1..2 rankings (canonical names) plus 400 seeded datasets n<=6, m<=5 "
         "cycling through 6 element-name kinds, 18 schemes (the four families, multiples x2 x1/4 x3 x1/8192, four "
-        "schemes proportional to a family on B only, six foreign schemes). thorough: R(3) m<=3, R(4) m<=2, 4000 "
-        "samples, 36 schemes. Bounds n<=6, m<=5 keep distinct rational means distinct as floats. Non-trivial = "
+        "schemes proportional to a family on B only, six foreign schemes). thorough: R(3) m<=3, R(4) m<=2 (datasets of 3 "
+        "rankings and those over 4 names under a rotating window of 9 of the 36 schemes), 4000 samples under all 36 "
+        "schemes. Bounds n<=6, m<=5 keep distinct rational means distinct as floats. Non-trivial = "
         "universe of >= 2 elements; distinct = distinct (dataset, scheme, variant).")
 SCOPE = {"quick": "all datasets n<=3 m<=2 (701) + 400 sampled n<=6 m<=5; 18 schemes; 2 variants",
-         "thorough": "all datasets n<=3 m<=3 (18277) + n=4 m<=2 (22649) + 4000 sampled n<=6 m<=5; 36 schemes; "
-                     "2 variants"}
+         "thorough": "all datasets n<=3 m<=2 x 36 schemes; n<=3 m=3 (17.6k) and n=4 m<=2 (21.9k) x 9 rotating "
+                     "schemes; 4000 sampled n<=6 m<=5 x 36 schemes; 2 variants"}
 EXHAUSTIVE = {"quick": False, "thorough": False}
 CHUNK = 4
 
@@ -51,12 +52,15 @@ CHUNK = 4
 def gen_cases(tier, seed):
     quick = tier == "quick"
     si = "quick" if quick else "all"
+    idx = 0
     for d in D.all_datasets(3, 2 if quick else 3):
-        yield {"rankings": d, "schemes": si, "namekind": "canon"}
+        yield {"rankings": d, "schemes": si if quick or len(d) < 3 else "w%d" % idx, "namekind": "canon"}
+        idx += 1
     if not quick:
         for d in D.all_datasets(4, 2):
-            if 3 in D.universe_of(d):
-                yield {"rankings": d, "schemes": si, "namekind": "canon"}
+            if 3 in D.universe_of(d):           # the others were enumerated above
+                yield {"rankings": d, "schemes": "w%d" % idx, "namekind": "canon"}
+                idx += 1
     rng = random.Random(seed * 15485863 + 12)
     kinds = list(D.NAME_KINDS)
     seen = set()
@@ -85,6 +89,15 @@ def _b_only(scheme):
     return any(O.proportional(bb, [s[0], s[0]]) for s in UNI + IND)
 
 
+def _schemes(spec):
+    if spec == "quick":
+        return SCHEMES_QUICK
+    if spec == "all":
+        return SCHEMES_ALL
+    k = int(spec[1:])                       # "w<k>": a rotating window of 9 schemes
+    return [SCHEMES_ALL[(5 * k + j) % len(SCHEMES_ALL)] for j in range(9)]
+
+
 def check_case(case):
     from bounded import adapt as A
     from corankco.algorithms.borda.borda import BordaCount
@@ -97,7 +110,7 @@ def check_case(case):
     image = {i: conv(names[i]) for i in D.universe_of(canon_rankings)}
     universe = D.universe_of(exp_r)
     complete = D.is_complete(exp_r)
-    schemes = SCHEMES_QUICK if case["schemes"] == "quick" else SCHEMES_ALL
+    schemes = _schemes(case["schemes"])
     fails = []
     evals = 0
 
